@@ -27,6 +27,8 @@ import YtkProofs.GapDiffFlatten
 import YtkProofs.GapPointer
 import YtkProofs.ValidB
 import YtkProofs.FuncsPtr
+import YtkProofs.FuncsDomRead
+import YtkProofs.FuncsDomChild
 
 namespace Ytk.C02
 
@@ -272,5 +274,74 @@ theorem nonvacuous_ToListPath : Funcs.ToListPath "a.b" (3 : Nat) = "a.b[3]" ∧ 
 theorem PropSegString_generated_eq_model (s : Ptr.PropSeg) :
     Funcs.PropSegString (Ptr.segToGo s) = (if s.isNum then toString s.index else s.value) := by
   simp [Funcs.PropSegString, Ptr.segToGo, Go.fmtD_nat]
+
+end Ytk.C02
+
+/-! ## xlate7d: the REGENERATED translation of the read paths of dom/container.go (Generated/FuncsDom.lean)
+
+  `flattenLeaf`, `flattenList`, `flattenContainer`, `(*containerImpl).Flatten`, `Search`, `Lookup` are rewritten from the
+  Go source on every run; `Child` of ONE path component stays the DomPrelude primitive `GoDom.child` (= `child`).
+  A Go `map[string]Leaf` is its association list, written with `m[k] = v` ↦ `AMap.insert`, ranged in key order. -/
+namespace Ytk.C02
+open Ytk.Generated
+
+/-- flattenContainer(node, path, &ret): the pairs of the model's walker, written into the map in traversal order -/
+theorem domFlattenContainer_generated_eq_model (c : AMap Node) (p : String) (ret : AMap Scalar) :
+    FuncsDom.domFlattenContainer c p ret = .ok (FuncsDomRead.ins ret (flattenKvs c p)) :=
+  FuncsDomRead.domFlattenContainer_generated_eq_model c p ret
+
+theorem domFlattenList_generated_eq_model (l : List Node) (p : String) (ret : AMap Scalar) :
+    FuncsDom.domFlattenList l p ret = .ok (FuncsDomRead.ins ret (Ytk.flattenList l p 0)) :=
+  FuncsDomRead.domFlattenList_generated_eq_model l p ret
+
+theorem domFlattenLeaf_generated_eq_model (s : Scalar) (p : String) (ret : AMap Scalar) :
+    FuncsDom.domFlattenLeaf s p ret = .ok (AMap.insert ret p s) := rfl
+
+/-- Container.Flatten() is the model's `flattenMap`, for ALL containers (no validity hypothesis) -/
+theorem Flatten_generated_eq_model (c : AMap Node) : FuncsDom.containerFlatten c = .ok (flattenMap c) :=
+  FuncsDomRead.containerFlatten_generated_eq_model c
+
+/-- Container.Search(fn) for a total predicate -/
+theorem Search_generated_eq_model (f : Scalar → Bool) (c : AMap Node) :
+    FuncsDom.containerSearch c (fun v => .ok (f v)) = .ok (search f c) :=
+  FuncsDomRead.containerSearch_generated_eq_model f c
+
+/-- Container.Lookup(path) is the model's `lookup`, for ALL containers and ALL path strings -/
+theorem Lookup_generated_eq_model (c : AMap Node) (path : String) :
+    FuncsDom.containerLookup c path = .ok (lookup c path) :=
+  FuncsDomRead.containerLookup_generated_eq_model c path
+
+/-- the translated code RUN -/
+theorem nonvacuous_read_generated :
+    FuncsDom.containerFlatten [("a", .list [.leaf ⟨"int", "1"⟩, .cont [("x", .leaf ⟨"string", "s"⟩)]]), ("b", .leaf ⟨"int", "2"⟩)]
+      = .ok [("a[0]", ⟨"int", "1"⟩), ("a[1].x", ⟨"string", "s"⟩), ("b", ⟨"int", "2"⟩)] ∧
+    FuncsDom.containerLookup [("a", .cont [("b", .list [.leaf ⟨"int", "7"⟩])])] "a.b[0]" = .ok (some (.leaf ⟨"int", "7"⟩)) ∧
+    FuncsDom.containerLookup [("a", .leaf ⟨"int", "7"⟩)] "a.b" = .ok none ∧
+    FuncsDom.containerSearch [("a", .leaf ⟨"int", "1"⟩), ("b", .leaf ⟨"int", "2"⟩)] (fun v => .ok (v == ⟨"int", "2"⟩)) = .ok ["b"] := by
+  decide +kernel
+
+end Ytk.C02
+
+/-! ## xlate7d: `(*containerImpl).Child` — the index-suffix handling -/
+namespace Ytk.C02
+open Ytk.Generated
+
+/-- Container.Child(name), as translated (the regexp `\[\d+]$`, `FindStringIndex`, `strconv.Atoi`, the RECURSION on the
+    name without its last group, `n.(List)`, the bounds test): the model's `child` (which strips all groups first and
+    then descends), for every container and every name whose index groups are below 2^63 (`strconv.Atoi` saturates
+    at the int64 bound; a list with 2^63 items does not exist) -/
+theorem Child_generated_eq_model (c : AMap Node) (name : String)
+    (hf : ∀ i ∈ (parseSeg name).2, i < 9223372036854775808) :
+    FuncsDom.containerChild c name = .ok (child c name) :=
+  FuncsDomChild.containerChild_generated_eq_model c name hf
+
+/-- the translated code RUN: nested groups, an index out of bounds, a group on a non-list, a plain key, a missing key -/
+theorem nonvacuous_Child_generated :
+    FuncsDom.containerChild [("a", .list [.leaf ⟨"int", "1"⟩, .list [.leaf ⟨"int", "7"⟩]])] "a[1][0]" = .ok (some (.leaf ⟨"int", "7"⟩)) ∧
+    FuncsDom.containerChild [("a", .list [.leaf ⟨"int", "1"⟩])] "a[1]" = .ok none ∧
+    FuncsDom.containerChild [("a", .leaf ⟨"int", "1"⟩)] "a[0]" = .ok none ∧
+    FuncsDom.containerChild [("a", .leaf ⟨"int", "1"⟩)] "a" = .ok (some (.leaf ⟨"int", "1"⟩)) ∧
+    FuncsDom.containerChild [("a", .leaf ⟨"int", "1"⟩)] "b" = .ok none := by
+  decide +kernel
 
 end Ytk.C02
